@@ -183,6 +183,13 @@ func genC19eCase(t *rapid.T) c19eCase {
 		c.SwapBurst = rapid.SampledFrom([]int{0, 1, 3}).Draw(t, "swapBurst")
 		c.ParkSpins = rapid.SampledFrom([]int{0, 2000, 20000}).Draw(t, "parkSpins")
 	}
+	if rapid.IntRange(0, 3).Draw(t, "stream") == 0 {
+		// a steady stream: 60..200 emits in one direction with the same sub-millisecond gap
+		e := c19eEmit{GapUs: rapid.SampledFrom([]int{100, 500, 900}).Draw(t, "streamGap"), Dir: rapid.SampledFrom([]string{"c2s", "s2c"}).Draw(t, "streamDir"), Burst: 1}
+		for i, n := 0, rapid.IntRange(60, 200).Draw(t, "streamLen"); i < n; i++ {
+			c.Emits = append(c.Emits, e)
+		}
+	}
 	for i, n := 0, rapid.IntRange(1, 12).Draw(t, "emits"); i < n; i++ {
 		c.Emits = append(c.Emits, c19eEmit{
 			GapUs:  rapid.SampledFrom([]int{0, 1, 50, 1000, 1000, 40000, 100000, 1000000, 24_999_000, 25_000_000, 25_001_000, 31_000_000}).Draw(t, "gap"),
@@ -197,7 +204,7 @@ func genC19eCase(t *rapid.T) c19eCase {
 func TestC19_E2ELatency(t *testing.T) {
 	setT(t)
 	defer startWatchdog(t, 90*time.Second)()
-	ev := NewEv(t, "C19", c19eCheck, "rapid on the virtual-time rig (real server, real client; long-polling, websocket, during/after the upgrade; one-way link latency 0 / 1 / 20 ms): 1..12 emit instants in either "+
+	ev := NewEv(t, "C19", c19eCheck, "rapid on the virtual-time rig (real server, real client; long-polling, websocket, during/after the upgrade; one-way link latency 0 / 1 / 20 ms): 1..12 emit instants (a quarter of the cases start with a steady stream of 60..200 emits at a gap of 100..900 us) in either "+
 		"direction separated by gaps from 0 to 31 s (including just before, at and after the 25 s heartbeat), single or in bursts of 2..5 from concurrent goroutines, text and binary; oracle: every event reaches its "+
 		"handler within 6 link traversals + 20 ms of virtual time after Emit (with a zero-latency network: within 20 ms) - a packet that waited for a heartbeat, a poll timeout or another packet shows as seconds; "+
 		"non-trivial = >= 3 emits over long-polling")
